@@ -9,6 +9,7 @@ mod c01;
 mod c04;
 mod c06;
 mod c08;
+mod c09;
 mod c10;
 mod c11;
 mod c12;
@@ -33,6 +34,7 @@ fn run_line(prop: &str, line: &str) -> String {
     "C04" => c04::run(args),
     "C06" => c06::run(args),
     "C08" => c08::run(args),
+    "C09" => c09::run(args),
     "C10" => c10::run(args),
     "C11" => c11::run(args),
     "C12" => c12::run(args),
@@ -67,6 +69,7 @@ fn main() {
         "C04" => c04::gen(thorough, seed, &mut out),
         "C06" => c06::gen(thorough, seed, &mut out),
         "C08" => c08::gen(thorough, seed, &mut out),
+        "C09" => c09::gen(thorough, seed, &mut out),
         "C10" => c10::gen(thorough, seed, &mut out),
         "C11" => c11::gen(thorough, seed, &mut out),
         "C12" => c12::gen(thorough, seed, &mut out),
